@@ -132,6 +132,7 @@ def run_property(pid, tier, seed, jobs=None, write_baseline=False, only_units=No
     crashed = [(k, r["crashed"]) for k, r in results.items() if r["crashed"]]
     for k, tb in crashed:
         results[k]["unsupported"] = list(results[k]["unsupported"]) + [f"engine error: {tb.strip().splitlines()[-1][:300]}"]
+        print(f"  unit {k[1]} crashed (twice): {tb.strip().splitlines()[-1][:300]}", flush=True)
     obls = []
     for k, r in sorted(results.items()):
         for o in r["obligations"]:
@@ -257,6 +258,7 @@ def run_property(pid, tier, seed, jobs=None, write_baseline=False, only_units=No
             paths=sum(r["paths"] for r in results.values()),
             infeasible_paths=sum(r["infeasible"] for r in results.values()),
             bounded_standins=bounded,
+            dependency_units=[n for _, n in registry.dependency_units(pid)],
             undecided=[o["name"] for o in undecided][:50],
             outside_subset=[f"{u}: {m}" for u, m in unsupported][:50],
             missing_baseline_obligations=missing[:50],
@@ -344,7 +346,10 @@ def _self_test(pid):
 def _cross_check(pid, results, seed):
     """CPython differential cross-check: every function under contract of this property is run on the concrete family of its
     contract on the unchanged tree (a second seed); no contract violation may be found"""
-    fns = sorted({q for r in results.values() for q in r["functions"]})
+    from . import registry
+    dep = {n for _, n in registry.dependency_units(pid)}
+    # the property's own units only: the functions of its dependency units are cross-checked under their own property
+    fns = sorted({q for (m, n), r in results.items() if n not in dep for q in r["functions"]})
     tried, failures, nofam = 0, [], 0
     for fnq in fns:
         ans = harness(["refute", "--seed", str(seed + 1000)], stdin=json.dumps(dict(function=fnq, property=pid)), timeout=900)
